@@ -10,7 +10,7 @@ from the named column and applies that same vector to every column in both stora
 also through helper functions, whose transpose argument must be the caller's; the missing range is
 [ndata, ncols*nrows) and nrows = ceil(ndata/ncols); (R4) DataCombination: keys/values/items iterate
 itertools.product over the same ranges / lists and items pairs list i with key component i.
-NOT decided: the model equivalence over all histories; argsort tie order."""
+NOT decided: the model equivalence over all histories; argsort tie order. Also: key-kind decision table of __getitem__; a dict row is complete before any column is extended."""
 import ast
 
 from ..model import AnalysisError, dotted_name, methods, norm, walk_no_nested
